@@ -512,6 +512,14 @@ class Prover:
             return const_int(op)
         pl = op["place"]
         if pl["p"]:
+            # the index of an item of `slice.iter().enumerate()` (`(next() as Some).0.0`): below the length of a slice
+            pr = pl["p"]
+            if len(pr) == 3 and pr[0]["k"] == "downcast" and pr[0].get("name") == "Some" and pr[1]["k"] == "field" and pr[1]["i"] == 0 \
+                    and pr[2]["k"] == "field" and pr[2]["i"] == 0:
+                d = self.q.single_def(pl["l"])
+                if d is not None and d.kind == "call" and re.match(
+                        r"^<std::iter::Enumerate<std::slice::(Iter|IterMut|ChunksExact|ChunksExactMut|Chunks|ChunksMut)<.*>> as std::iter::Iterator>::next$", d.call.full):
+                    return (1 << 63) - 1
             # field of a struct: bound by its type
             last = pl["p"][-1]
             if last["k"] == "field" and "ty" in last:
